@@ -241,6 +241,10 @@ func VerifyWithCustomWOTSParamW(message, signature []uint8, extendedPK [Extended
 	}
 
 	hashFunction := desc.GetHashFunction()
+	if hashFunction != SHA2_256 && hashFunction != SHAKE_128 && hashFunction != SHAKE_256 {
+		// an unsupported hash function id would turn every hash into a no-op
+		return false
+	}
 
 	k := WOTSParamK
 	w := wotsParamW
